@@ -606,6 +606,12 @@ func (e *Eval) compile(node ast.Node) error {
 		//
 		e.changeOperand(jumpEnd, len(e.instructions))
 
+		// Finally add a "Nop" instruction, one that will not
+		// be optimized away: the end of the expression is a
+		// jump-target, and the optimizer must not fold
+		// constants across it.
+		e.emit(code.OpPlaceholder)
+
 	case *ast.SwitchExpression:
 
 		//
